@@ -32,6 +32,11 @@ type Ctx struct {
 	notes       []string
 }
 
+// NewCtx returns an empty context (for replays that bypass Check/Enumerate).
+func NewCtx() *Ctx {
+	return &Ctx{classes: map[string]int{}, excluded: map[string]int{}, known: map[string]string{}}
+}
+
 // Class increments a classification counter for this case.
 func (c *Ctx) Class(name string) {
 	c.mu.Lock()
